@@ -22,6 +22,8 @@ type TruthCase struct {
 	// before in this process, then the positions again (vuego keeps process-wide caches of parsed
 	// paths and compiled expressions: what a path means must not depend on what was rendered before).
 	Prelude int `json:"prelude,omitempty"`
+	// Entry is the door the position templates are rendered through (see entryPoints).
+	Entry string `json:"entry,omitempty"`
 }
 
 type position struct {
@@ -275,12 +277,12 @@ var funcNames = []string{"title", "len", "default", "type", "json", "file"}
 
 func funcNameForms() []form {
 	var out []form
-	for _, name := range funcNames {
+	for _, name := range append(append([]string(nil), funcNames...), "upper", "trim", "boom", "nok") {
 		name := name
 		out = append(out, form{name: "variable named like the template function " + name, path: name,
-			// without any variable of that name the word denotes the function: not a variable at all
-			skip: func(v vals.V) bool { return v.K == "missing" },
-			data: func(v any, _ bool) map[string]any { return map[string]any{name: v} }})
+			// with no variable of that name (missing) the word is an absent variable: falsy, not the
+			// function value
+			data: func(v any, miss bool) map[string]any { return mapWith(name, v, miss) }})
 	}
 	return out
 }
@@ -688,9 +690,9 @@ func checkTruthPass(c TruthCase, note string) error {
 		} else if p.data != nil {
 			data = p.data(c.Val)
 		}
-		out, err := render(p.tpl, data, "")
+		out, err := render(p.tpl, data, c.Entry)
 		if err != nil {
-			return fmt.Errorf("x=%s in %s: render failed: %v (template %s)%s", c.Val, p.name, err, p.tpl, note)
+			return fmt.Errorf("x=%s in %s: render failed: %v (template %s, door %q)%s", c.Val, p.name, err, p.tpl, c.Entry, note)
 		}
 		forest, err := hx.Frag(out, hx.Collapse)
 		if err != nil {
@@ -701,8 +703,8 @@ func checkTruthPass(c TruthCase, note string) error {
 			return fmt.Errorf("x=%s in %s: %v (template %s, output %q)%s", c.Val, p.name, err, p.tpl, out, note)
 		}
 		if specified && got != doc {
-			return fmt.Errorf("x=%s is documented %s but position %s treated it as %s (template %s, output %q)%s",
-				c.Val, tf(doc), p.name, tf(got), p.tpl, out, note)
+			return fmt.Errorf("x=%s is documented %s but position %s treated it as %s (template %s, output %q, door %q)%s",
+				c.Val, tf(doc), p.name, tf(got), p.tpl, out, c.Entry, note)
 		}
 		seen = append(seen, res{p.name, got})
 	}
